@@ -338,6 +338,7 @@ def select__child_path(self: XPathToken, context: ta.ContextType = None) \
         yield from self[0].select(context)
     else:
         items: set[ta.ItemType] = set()
+        results: list[ta.ItemType] = []
         for _ in self[0].select_with_focus(context):
             if not isinstance(context.item, XPathNode):
                 msg = f"Intermediate step contains an atomic value {context.item!r}"
@@ -345,16 +346,14 @@ def select__child_path(self: XPathToken, context: ta.ContextType = None) \
 
             for result in self[1].select(context):
                 if not isinstance(result, XPathNode):
-                    yield result
-                elif result in items:
-                    pass
-                elif isinstance(result, ElementNode):
-                    if result.value not in items:
-                        items.add(result)
-                        yield result
-                else:
+                    results.append(result)
+                elif result not in items:
                     items.add(result)
-                    yield result
+                    results.append(result)
+
+        if len(results) == len(items):
+            results.sort(key=node_position)  # only nodes: restore document order
+        yield from results
 
 
 @method('//')
@@ -365,6 +364,7 @@ def select__descendant_path(self: XPathToken, context: ta.ContextType = None) \
         raise self.missing_context()
     elif len(self) == 2:
         items: set[ta.ItemType] = set()
+        results: list[ta.ItemType] = []
         for _ in self[0].select_with_focus(context):
             if not isinstance(context.item, XPathNode):
                 raise self.error('XPTY0019')
@@ -372,16 +372,14 @@ def select__descendant_path(self: XPathToken, context: ta.ContextType = None) \
             for _ in context.iter_descendants():
                 for result in self[1].select(context):
                     if not isinstance(result, XPathNode):
-                        yield result
-                    elif result in items:
-                        pass
-                    elif isinstance(result, ElementNode):
-                        if result.value not in items:
-                            items.add(result)
-                            yield result
-                    else:
+                        results.append(result)
+                    elif result not in items:
                         items.add(result)
-                        yield result
+                        results.append(result)
+
+        if len(results) == len(items):
+            results.sort(key=node_position)  # only nodes: restore document order
+        yield from results
 
     else:
         if isinstance(context.document, DocumentNode):
